@@ -1884,6 +1884,14 @@ def gen_history_case(rng, i):
         if st["op"] == "set_xyz" and sliced:
             st["xyz"] = st["xyz"][:2]
         ops.append(st)
+        if st["op"] == "center" and rng.random() < 0.6:
+            # coordinates edited behind the setter right after centring
+            ops.append(rng.choice([{"op": "scale_axis", "axis": rng.randrange(3), "factor": 3},
+                                   {"op": "shift_atoms", "atoms": [0], "delta": [64, -32, 16]},
+                                   {"op": "make_whole"}]))
+            ops.append({"op": "call", "args": {"kind": "rg", "masses": None}})
+        if st["op"] in ("set_element", "rename_atom") and rng.random() < 0.6:
+            ops.append({"op": "call", "args": {"kind": rng.choice(["centres", "inertia"]), "select": None}})
         for _ in range(rng.randint(1, 2)):
             ops.append({"op": "call", "args": call()})
     # always finish with the two calls whose inputs were most likely edited
@@ -1990,6 +1998,25 @@ def fixed_probes():
                     "box": [256, 256, 256], "periodic": True, "pairs": [[0, 1]], "opt": None,
                     "r_range": [list(float(x).as_integer_ratio()) for x in rr], "n_bins": None,
                     "bin_width": list(float(bw).as_integer_ratio())})
+    # call histories: a descriptor, a state change behind the object's back, the descriptor again
+    wat = [["HOH", 0, [["O", "O"], ["H1", "H"], ["H2", "H"]]] for _ in range(3)]
+    hx = [[[(17 * a + 5 * k + 11 * f) % 97 for k in range(3)] for a in range(9)] for f in range(3)]
+    hb = [[0, 1], [0, 2], [3, 4], [3, 5], [6, 7], [6, 8]]
+    rgc = {"op": "call", "args": {"kind": "rg", "masses": None}}
+    comc = {"op": "call", "args": {"kind": "centres", "select": None}}
+    inc = {"op": "call", "args": {"kind": "inertia"}}
+    hbase = {"kind": "history", "top": wat, "unit": UNIT, "xyz": hx, "box": [512] * 3, "bonds": hb}
+    out.append(dict(hbase, flavour=0, ops=[rgc, {"op": "center"}, rgc, {"op": "scale_axis", "axis": 2, "factor": 3}, rgc,
+                                           {"op": "slice", "frames": [0, 2]}, {"op": "shift_atoms", "atoms": [0, 4], "delta": [64, 0, -64]},
+                                           rgc, {"op": "make_whole"}, rgc, comc]))
+    out.append(dict(hbase, flavour=1, ops=[comc, inc, {"op": "set_element", "atoms": [1, 2, 4, 5, 7, 8], "symbol": "D"}, comc, inc,
+                                           {"op": "set_element", "atoms": [0, 3], "symbol": "Fe"},
+                                           {"op": "call", "args": {"kind": "centres", "select": "index 0 1 2 3", "sel_expected": [0, 1, 2, 3]}},
+                                           {"op": "rename_atom", "atom": 0, "name": "CA"},
+                                           {"op": "call", "args": {"kind": "contacts", "scheme": "ca", "soft_min": False, "periodic": False,
+                                                                   "beta": None, "contacts": [[0, 1], [0, 2]], "squareform": False}},
+                                           {"op": "add_bond", "a": 0, "b": 3}, {"op": "call", "args": {"kind": "drid", "atom_indices": None}},
+                                           comc, rgc]))
     return out
 
 
@@ -2013,7 +2040,7 @@ def build_cases(ctx):
     cases += [gen_geom_case(rng, "inertia") for _ in range(12 * k)]
     cases += [gen_order_case(rng, i) for i in range(15 * k)]
     cases += [gen_rdf_t_case(rng, i) for i in range(24 * k)]
-    cases += [gen_history_case(rng, i) for i in range(24 * k)]
+    cases += [gen_history_case(rng, i) for i in range((16 if quick else 10) * k)]
     return cases
 
 
